@@ -69,6 +69,10 @@ T={
           "tbox_network_test unchanged (23 pass / 5 offline failures on both trees); demo_ptr_loop.cpp: three loop packets die with SIGSEGV with it, passes without"),
  'c15_2':('C15',"a matching datagram that is then ignored (truncated, malformed, A record with rdlength != 4, SERVFAIL from a server that is not the last), followed by whatever would have completed the lookup (callback moved out before the reply is parsed)",
           "tbox_network_test unchanged; demo_lookup_once.cpp: four scenarios report 0 callbacks with it, passes without"),
+ 'c17_1':('C17',"a pause that lands between the finish of a terminal child (then/else of IfElse, then of IfThen, case/default of Switch, child of Composite) and the parent's handling of it, followed by resume (curr_action_ no longer cleared in onLastChildFinished)",
+          "tbox_flow_test action tests 86/86 pass with the change (four timing-flaky tests excluded on both trees); demo_c17_1.cpp reports 7 violations with it (root never finishes), passes without"),
+ 'c17_2':('C17',"a node with setTimeout(), a leaf below it that blocks, reset() in that state without a prior stop(), then waiting past the old deadline or a restart that needs longer than what is left of it (reset() disarms the timer only while running)",
+          "action tests 86/86 pass with the change; demo_c17_2.cpp reports 7 violations with it (stale ActionTimeout finish; early timeout of the second run), passes without"),
 }
 res={}
 for pid in set(v[0] for v in T.values()):
